@@ -766,6 +766,12 @@ def run(run, ix, tier):
     check_clone(run, ix)
     run.rule('X-R8', floor=9, desc='companion-context links established for every context')
     check_links(run, ix)
+    # X-R9: containers shared between contexts (module level, default arguments, decorator closures) never
+    # receive context-derived values: rule D-R3 of the C33 module
+    from ..report import SubRun
+    from . import c33
+    run.rule('X-R9', floor=2, desc='no context-derived value in storage shared between contexts (D-R3)')
+    c33.check_cross_context(SubRun(run, keep=('D-R3',), rename=lambda r: 'X-R9'), ix)
     n4 = check_hack_globals(run, ix)
     n5 = check_global_instances(run, ix)
     n6 = check_foreign_cell(run, ix)
